@@ -185,6 +185,13 @@ func (s govState) render(w *govWorld) string {
 	return fmt.Sprintf("ir=[%s] gas=[%s] neo=[%s]%s", strings.Join(s.ir, ","), strings.Join(gs, ","), strings.Join(ns, ","), o)
 }
 
+// keyCmp compares the public keys of two single-key actors the way the native contracts order keys.
+func (w *govWorld) keyCmp(a, b string) int {
+	ka := w.act.byTag[a].signer.(neotest.SingleSigner).Account().PublicKey()
+	kb := w.act.byTag[b].signer.(neotest.SingleSigner).Account().PublicKey()
+	return ka.Cmp(kb)
+}
+
 // sortKeyTags orders `#TAG` tokens the way the native RoleManagement contract stores the keys.
 func (w *govWorld) sortKeyTags(toks []string) []string {
 	out := append([]string{}, toks...)
